@@ -148,6 +148,31 @@ def run(check):
           r_v.violate('flush does not cover the live table', cv, lp[0].owner, 'compute_value iterates `%s`, not every buffer in '
                       'self.interval_buffers' % unparse(lp[0].owner.iter))
           okv = True
+    if not okv and aggs:
+      # by value: the argument is <buffer>.values for a buffer taken from the live table (values() / items() / [key])
+      from ..symeval import canon, alternatives
+      vn_a = ValueNumbers(cx, cv, multi=True)
+      S0 = ('param', cv.params[0])
+      TAB = ('attr', S0, 'interval_buffers')
+
+      def live_buffer(b):
+        b = canon(b)
+        if not isinstance(b, tuple):
+          return False
+        if b[0] == 'elem' and canon(b[1]) in (('meth', 'values', TAB), ('call', '%s.interval_buffers.values' % cv.params[0])):
+          return True
+        if b[0] in ('field', 'sub') and len(b) == 3 and b[2] in (1, ('const', 1)) and isinstance(b[1], tuple) and b[1][0] == 'elem' and \
+           canon(b[1][1]) in (('meth', 'items', TAB), ('call', '%s.interval_buffers.items' % cv.params[0])):
+          return True
+        if b[0] in ('field', 'sub') and len(b) == 3 and canon(b[1]) == TAB:
+          return True
+        return False
+      for c in aggs:
+        if len(c.args) == 1:
+          alts = alternatives(vn_a.term(c.args[0], c))
+          if alts and all(isinstance(t_, tuple) and t_[0] == 'attr' and t_[-1] == 'values' and live_buffer(t_[1]) for t_ in alts):
+            okv = True
+            r_v.ok('aggregation_func(<buffer of the live interval table>.values)', cv.loc(c))
     if not okv:
       r_v.violate('values not aggregated whole', cv, aggs[0] if aggs else None, 'compute_value does not call '
                   'self.aggregation_func(buffer.values) with the complete value list', construct='self.aggregation_func(buffer.values)')
@@ -195,6 +220,9 @@ def run(check):
         return t[2]
       if isinstance(t, tuple) and t[0] == 'meth' and t[1] in ('setdefault', 'get') and len(t) >= 4 and canon(t[2]) == TABLE:
         return t[3]
+      if isinstance(t, tuple) and t[0] == 'call' and isinstance(t[1], str) and len(t) >= 3 and \
+         t[1] in ('%s.interval_buffers.get' % mi.params[0], '%s.interval_buffers.setdefault' % mi.params[0]):
+        return t[2]
       return None
 
     def aligned(k):
@@ -382,7 +410,10 @@ def run(check):
       t = n.ast
       rhs = unparse(t.comparators[0]).replace(' ', '')
       rd_ok = False
-      if isinstance(t.ops[0], ast.Gt):
+      over_pol = 'T'
+      if isinstance(t.ops[0], ast.LtE) and 'len(self.interval_buffers)' in unparse(t.left).replace(' ', ''):
+        over_pol = 'F'          # `if len(...) <= bound: nothing to trim  else: trim`
+      if isinstance(t.ops[0], (ast.Gt, ast.LtE)) and 'len(self.interval_buffers)' in unparse(t.left).replace(' ', ''):
         # rhs must be MAX_AGGREGATION_INTERVALS + 2 (as a value: locals are followed to what they hold)
         vn_cv = ValueNumbers(cx, cv)
         rt = vn_cv.term(t.comparators[0], n)
@@ -394,7 +425,7 @@ def run(check):
       if rd_ok and g.exit not in g.reach([g.entry], removed_nodes={n}, normal_only=True):
         okb = True
         r_p.ok('every flush tests len(interval_buffers) > MAX_AGGREGATION_INTERVALS + 2', cv.loc(t))
-        tsucc = [b for b, lab in n.succ if isinstance(lab, tuple) and lab[0] == 'T']
+        tsucc = [b for b, lab in n.succ if isinstance(lab, tuple) and lab[0] == over_pol]
         dels = [x for x in g.reach(tsucc, normal_only=True) if x.kind == 'stmt' and isinstance(x.ast, ast.Delete) and
                 'self.interval_buffers[' in unparse(x.ast).replace(' ', '')]
         if dels:
